@@ -197,12 +197,22 @@ def lookupKey (k : List Char) : List (List Char × JVal) → Option JVal
   | [] => none
   | (k', v) :: m => if k' = k then some v else lookupKey k m
 
+/-- the property names `locale`, `id`, `values` -/
+def kLocale : List Char := ['l', 'o', 'c', 'a', 'l', 'e']
+def kId : List Char := ['i', 'd']
+def kValues : List Char := ['v', 'a', 'l', 'u', 'e', 's']
+/-- the global `window.__LEPTOS_I18N_TRANSLATIONS` -/
+def globalRef : List Char := ['w', 'i', 'n', 'd', 'o', 'w', '.', '_', '_', 'L', 'E', 'P', 'T', 'O', 'S', '_', 'I', '1', '8', 'N', '_', 'T', 'R', 'A', 'N', 'S', 'L', 'A', 'T', 'I', 'O', 'N', 'S']
+/-- `</script` and `<!--` -/
+def patEndScript : List Char := ['<', '/', 's', 'c', 'r', 'i', 'p', 't']
+def patComment : List Char := ['<', '!', '-', '-']
+
 /-- `{locale: string, id: string | null, values: string[]}`: exactly these three properties, each
     once, in any order (the shape `init_translations` deserialises) -/
 def asUnit : JVal → Option TUnit
   | JVal.obj m =>
     if m.length = 3 then
-      match lookupKey "locale".toList m, lookupKey "id".toList m, lookupKey "values".toList m with
+      match lookupKey kLocale m, lookupKey kId m, lookupKey kValues m with
       | some (JVal.str l), some (JVal.str i), some vs => (asStrList vs).map (fun v => ⟨l, some i, v⟩)
       | some (JVal.str l), some JVal.null, some vs => (asStrList vs).map (fun v => ⟨l, none, v⟩)
       | _, _, _ => none
@@ -238,7 +248,7 @@ def jsonDecodeStrings (s : List Char) : Option (List (List Char)) :=
     `{locale, id, values}` objects.  (The hydrating client reads that global with `Reflect::get`
     and deserialises it with `serde_wasm_bindgen`.) -/
 def jsDecodeEmbedded (s : List Char) : Option (List TUnit) :=
-  match stripPrefix "window.__LEPTOS_I18N_TRANSLATIONS".toList s with
+  match stripPrefix globalRef s with
   | none => none
   | some r0 =>
     match skipWs r0 with
@@ -270,7 +280,7 @@ def hasInfixCI (pat : List Char) : List Char → Bool
     switches the tokenizer to the "script data escaped" states; a script text containing neither is
     passed to the JavaScript engine exactly as written. -/
 def scriptSafe (s : List Char) : Bool :=
-  !hasInfixCI "</script".toList s && !hasInfixCI "<!--".toList s
+  !hasInfixCI patEndScript s && !hasInfixCI patComment s
 
 /-! ### C17 as one executable predicate -/
 
